@@ -20,9 +20,22 @@ def one_schema(args):
     ctx_work, flatcc, rt_objs, seed, si, ncase = args
     r = random.Random(seed * 100003 + si)
     tabs, uns = vtree.random_schema(r, 0.25)
+    if si == -1:     # the recorded finding, deterministically: -0.0 given to a float field with default 0
+        import fbenc
+        tabs, uns = [[fbenc.fld(0, 0, "s", 4, 4), fbenc.fld(1, 0, "s", 8, 8)]], []
     ty = cgen.Typing(r, tabs, uns)
     P = cgen.Prog(ty)
     meta = []
+    if si == -1:
+        ty.ftype[(0, 0)] = dict(kind="scalar", t="float", default=0, optional=False)
+        ty.ftype[(0, 1)] = dict(kind="scalar", t="double", default=0, optional=False)
+        ty.structs.clear()
+        N = vtree.Node
+        for style in (0, 1):
+            t = N("T", ti=0, fields=[(tabs[0][0], N("i", size=4, align=4, data=b"\0\0\0\x80")), (tabs[0][1], N("i", size=8, align=8, data=b"\0" * 7 + b"\x80"))])
+            P.add_case(t, 0, False, False, style, False)
+            meta.append(dict(ti=0, ws=False, typed=False, style=style, force=False))
+        ncase = 0
     for ci in range(ncase):
         g = vtree.Gen(r, tabs, uns, maxdepth=r.choice([2, 4, 5]), big=r.random() < 0.05)
         ti = r.randrange(len(tabs))
@@ -101,7 +114,7 @@ def run(ctx):
     rt = build_runtime_objs(ctx)
     nschema = 48 if ctx.quick() else 600
     ncase = 12 if ctx.quick() else 18
-    jobs = [(ctx.work, flatcc, rt, ctx.seed, si, ncase) for si in range(nschema)]
+    jobs = [(ctx.work, flatcc, rt, ctx.seed, si, ncase) for si in range(-1, nschema)]
     with ThreadPoolExecutor(16) as ex:
         results = list(ex.map(one_schema, jobs))
     bad_schema = [r for r in results if "error" in r]
